@@ -252,7 +252,14 @@ func (e *Env) fmtJoin(rule string) {
 		okSep := len(seps) > 0
 		for _, z := range seps {
 			sep = z.String()
-			if !strings.HasSuffix(sep, ".joinSep") {
+			// the separator is the textual port attribute taken from the placeholder (a string field of PortInfo)
+			isAttr := false
+			if z.Op == "field" && z.Val != nil {
+				if f := fieldOfLoad(z.Val); f != nil && f != fi.tagField && fi.isPortInfoStringField(f) {
+					isAttr = true
+				}
+			}
+			if !isAttr {
 				okSep = false
 			}
 		}
